@@ -13,9 +13,12 @@ CHECK = {
               timeout={"quick": 300, "thorough": 1500}),
         suite("recv", "c09", 150, 1500, stdin=True, args=["-suite", "recv"],
               timeout={"quick": 300, "thorough": 1500}),
+        # round 8: the buffered alert channel seen by a consumer that does not receive after every check
+        suite("chan", "c09", 400, 6000, stdin=True, args=["-suite", "chan"]),
     ],
     "lean_sources": ["ClusterVerif/Gen/C09.lean", "ClusterVerif/Model/C09.lean", "ClusterVerif/Model/C09Source.lean", "ClusterVerif/Spec/C09.lean",
-                     "ClusterVerif/Lemmas/C09.lean", "ClusterVerif/Lemmas/C09Time.lean"],
+                     "ClusterVerif/Lemmas/C09.lean", "ClusterVerif/Lemmas/C09Time.lean",
+                     "ClusterVerif/Model/C09Chan.lean", "ClusterVerif/Spec/C09Chan.lean", "ClusterVerif/Lemmas/C09Chan.lean"],
     "rule": "history cases = (window capacity, accrual oracle forced true/false through the checker threshold or left to the real phi, "
             "initial peerset, 0-320 operations: arrivals with validity/expiry flags, RemovePeer, RemovePeerMetrics, peerset changes "
             "(known/none/failing), LatestMetrics queries, Watch ticks, CheckPeers calls with arbitrary lists) drawn from one splitmix64 "
@@ -23,6 +26,9 @@ CHECK = {
             "timed cases: 5-14 operations with real sleeps between them, metric TTLs of 150-400 ms, every query/check scheduled >= 60 ms away from "
             "every expiry instant; watch cases: the real Checker.Watch with a 40/50 ms interval, operations and expiries at mid-interval instants; "
             "recv cases: 4-20 operations whose arrivals are real pubsub messages of 21 encodings (well-formed, odd but accepted, zero value, malformed); "
+            "chan cases: channel capacity 1-4 (AlertChannelCap is a package variable; two corpus lines use the shipped 256 with 257 and 300 expired peers), "
+            "1-6 peers, 4-16 operations: expired/fresh arrivals (< 6 per peer), CheckPeers with arbitrary lists and visiting orders WITHOUT receiving, "
+            "a consumer that receives 0-3 alerts at arbitrary points; the case ends with a full drain; "
             "a timed run whose real timestamps do not confirm the nominal order with 5 ms to spare is re-run (3x) and then counted inconclusive",
     "trusted_base": ["harness copies of two dispatches: Watch's tick (CheckPeers(peerset) / CheckAll / nothing) and, in the history suite only, "
                      "LatestMetrics = LatestValid + PeersetFilter (the monitor suite runs the real pubsubmon.Monitor.LatestMetrics)",
@@ -32,7 +38,9 @@ CHECK = {
                      "encodings; the correspondence run sends each through real pubsub into the real msgpack decoder",
                      "/repo/monitor/pubsubmon/verif_export_c09.go (build tag verif): VerifStore / VerifChecker accessors",
                      "verif_export.go wrappers (VerifNewCluster, VerifPushInformerMetrics, VerifPushPingMetrics) and common.StoreMonitor as recording monitor"],
-    "assumptions": ["the float decision phi(v, d) >= threshold of the accrual detector is an oracle Boolean of the model (not modelled); "
+    "assumptions": ["history / monitor / timed / watch / recv suites and C09_holds: the consumer of Alerts() receives every alert of a check before the next "
+                    "check (the channel never fills up); the chan suite and the Chan theorems drop this assumption for one metric name and CheckPeers",
+                    "the float decision phi(v, d) >= threshold of the accrual detector is an oracle Boolean of the model (not modelled); "
                     "within one CheckPeers call it is the same for repeated visits of one (name, peer)",
                     "Window.Add stamps every arrival with a distinct, increasing ReceivedAt (modelled as arrival position + 1)",
                     "Metric.Expired is strict (`time.Now().After`): at the expiry instant itself the metric is still fresh; no timed run can observe the "
@@ -50,6 +58,9 @@ META = {
             "Tied to today's code by running the real Store/Checker/pubsubmon.Monitor on seeded histories and comparing every observation with the model "
             "and with the Lean property checker; time inside a case is tied with millisecond TTLs and real sleeps (timed suite), the real Checker.Watch ticker (watch suite) "
             "and real pubsub messages including malformed ones (recv suite); between two renewals of a (peer, metric) at most one alert, exactly one once a covering check finds it expired; "
+            "the buffered alert channel (round 8): model of alert/CheckPeers with channel occupancy, count-before-send order regenerated from the go/ast of Checker.alert; "
+            "theorem: with the count raised only after a successful send no history (any capacity, any consumer) forgets an unreported metric; refutation for the shipped order "
+            "(a full channel drops the alert, keeps the count, the next check forgets the stale metric silently), reproduced on the real Checker (suite chan); "
             "a malformed message changes nothing; a failing peerset function skips the round and keeps the pending alert; cadence measured on the real loops with millisecond TTLs (corpus cases in quick, random cases in thorough).",
     "note": "Trusted: Lean kernel (+propext, Classical.choice, Quot.sound), the hand-written model/spec, the Go harness. The phi float arithmetic is an oracle.",
     "technique": "Lean 4 invariants over histories + differential correspondence with the real monitor code",
